@@ -15,7 +15,7 @@ import threading
 
 import glom
 from glom import Coalesce, Fill, Invoke, Iter, S, Spec, T, Fold
-from glom.core import MODE, Path, TargetRegistry, _DEFAULT_SCOPE
+from glom.core import MODE, ROOT, Path, TargetRegistry, _DEFAULT_SCOPE
 from glom.grouping import Group, ACC_TREE
 
 import codec
@@ -138,6 +138,12 @@ class Ctx:
     def __init__(self):
         self.local = threading.local()
         self.gate_fn = None
+        self.glommer = glom.Glommer()      # the ONE shared Glommer instance of via="glommer" calls
+
+    def do_glom(self, bc):
+        if bc.via == 'glommer':
+            return self.glommer.glom(bc.target, bc.spec)
+        return glom.glom(bc.target, bc.spec, scope=bc.scope)
 
     def start_call(self):
         self.local.obs = []
@@ -150,9 +156,9 @@ class Ctx:
         if self.gate_fn is not None:
             self.gate_fn()
 
-    def observe(self, at, target, mode, names, acc):
+    def observe(self, at, target, root_target, mode, names, acc):
         self.local.obs.append({'at': list(at), 'd': self.local.depth, 't': project_value(target),
-                               'mode': mode, 'names': names, 'acc': acc})
+                               'rt': root_target, 'mode': mode, 'names': names, 'acc': acc})
 
 
 def _apply(f, t):
@@ -180,7 +186,11 @@ class Probe:
             lists = [v for v in tree.values() if type(v) is list]
             if lists:
                 acc = [project_value(x) for x in lists[0]]
-        self.ctx.observe(self.at, target, getattr(mode, '__name__', repr(mode)), names, acc)
+        try:
+            rt = project_value(scope[ROOT][glom.T])          # S[ROOT][T]: the target glom() was called with
+        except Exception as e:      # noqa
+            rt = {'k': 'opaque', 's': 'no root: %s' % type(e).__name__}
+        self.ctx.observe(self.at, target, rt, getattr(mode, '__name__', repr(mode)), names, acc)
 
     def glomit(self, target, scope):
         self._observe(target, scope)
@@ -204,7 +214,7 @@ class NestProbe(Probe):
         loc = self.ctx.local
         loc.depth += 1
         try:
-            return glom.glom(self.inner.target, self.inner.spec, scope=self.inner.scope)
+            return self.ctx.do_glom(self.inner)
         finally:
             loc.depth -= 1
 
@@ -216,7 +226,7 @@ class OpGate:
         self.ctx, self.at, self.f = ctx, tuple(at), f
 
     def __call__(self, acc, item):
-        self.ctx.observe(self.at, item, '-', [], [project_value(x) for x in acc])
+        self.ctx.observe(self.at, item, {'k': 'none'}, '-', [], [project_value(x) for x in acc])
         self.ctx.gate()
         acc.append(_apply(self.f, item))
         return acc
@@ -228,6 +238,9 @@ class OpGate:
 class BuiltCall:
     def __init__(self, target, spec, scope, ast):
         self.target, self.spec, self.scope, self.ast = target, spec, scope, ast
+        self.via = ast.get('via', 'glom')
+        if self.via == 'glommer' and scope:
+            raise ValueError('calls through the Glommer take no caller scope')
 
 
 class Builder:
@@ -298,7 +311,7 @@ def run_call(ctx, bc):
     """glom(target, spec, scope=..) -> abstract outcome {ok, v, cls, obs} and error text"""
     ctx.start_call()
     try:
-        res = glom.glom(bc.target, bc.spec, scope=bc.scope)
+        res = ctx.do_glom(bc)
     except Exception as e:          # noqa: the class is the observation
         try:
             text = scrub(str(e))
